@@ -7,4 +7,6 @@ let table = [
   "stack", Stack.run_line;
   "timeout", Timeout.accept;
   "throttle", Throttle.accept;
+  "gate", Gate.accept;
+  "poll", Poll.accept;
 ]
